@@ -493,7 +493,7 @@ def iris_of(graph):
 
 def xml_inexpressible(graph):
     """the graph has a predicate that no XML QName can spell: RDF/XML cannot express it"""
-    return any(t[1][1] in XML_UNSPLITTABLE for t in graph)
+    return any(not xml_qname_ok(t[1][1]) for t in graph)
 
 
 def _incoming(graph):
@@ -545,6 +545,133 @@ def bad_relative(graph, base):
     return False
 
 
+def unreachable_bnode(graph):
+    """a blank-node subject that cannot be reached from an IRI subject or from a blank-node subject nobody refers to"""
+    inc = _incoming(graph)
+    subs = {(t[0][0], t[0][1]) for t in graph}
+    roots = [x for x in subs if x[0] == "I" or x[1] not in inc]
+    out = {}
+    for t in graph:
+        out.setdefault((t[0][0], t[0][1]), []).append((t[2][0], t[2][1]))
+    seen, todo = set(roots), list(roots)
+    while todo:
+        n = todo.pop()
+        for m in out.get(n, []):
+            if m not in seen:
+                seen.add(m)
+                todo.append(m)
+    return any(x not in seen for x in subs if x[0] == "B")
+
+
+def list_cell_shared_or_typed(graph):
+    inc = _incoming(graph)
+    firsts = {t[0][1] for t in graph if t[0][0] == "B" and t[1][1] == FIRST}
+    if any(len(inc.get(b, [])) >= 2 for b in firsts):
+        return True
+    return any(t[0][0] == "B" and t[0][1] in firsts and t[1][1] == TYPE and t[2] == ["I", RDFNS + "List"] for t in graph)
+
+
+def xml_qname_ok(iri):
+    """can the IRI be cut into namespace + XML NCName (a sufficient, simple test)"""
+    j = len(iri)
+    while j > 0 and (iri[j - 1].isalnum() or iri[j - 1] in "._-\u00b7"):
+        j -= 1
+    while j < len(iri) and not (iri[j].isalpha() or iri[j] == "_"):
+        j += 1
+    return 0 < j < len(iri)
+
+
+def list_as_object(graph):
+    """some node that has an rdf:first property is used as an object"""
+    firsts = {(t[0][0], t[0][1]) for t in graph if t[1][1] == FIRST}
+    return any((t[2][0], t[2][1]) in firsts for t in graph)
+
+
+def type_object_unsafe(graph):
+    """an rdf:type object that is not an IRI ending in a plain XML name after its last '/' or '#'"""
+    for t in graph:
+        if t[1][1] != TYPE:
+            continue
+        if t[2][0] != "I":
+            return True
+        u = t[2][1]
+        k = max(u.rfind("/"), u.rfind("#"))
+        loc = u[k + 1:]
+        if k < 0 or not loc or not (loc[0].isalpha() or loc[0] == "_") or not all(c.isalnum() or c in "._-" for c in loc):
+            return True
+    return False
+
+
+def bad_relative_any(graph, base):
+    """an IRI that starts with the base (RDF/XML writers cut the base off whatever follows) or shares its
+    scheme and authority (JSON-LD writer) and does not survive being written relative and resolved again"""
+    from urllib.parse import urljoin, urlsplit
+    b = urlsplit(base)
+    origin = b.scheme + "://" + b.netloc
+    for u in iris_of(graph):
+        if u.startswith(base) and urljoin(base, u.replace(base, "", 1), allow_fragments=True) != u:
+            return True
+        if u.startswith(origin) and urljoin(base, u[len(origin):] or "/", allow_fragments=True) != u:
+            return True
+    return False
+
+
+def rest_cell_without_first(graph):
+    firsts = {t[0][1] for t in graph if t[0][0] == "B" and t[1][1] == FIRST}
+    rests = {t[0][1] for t in graph if t[0][0] == "B" and t[1][1] == REST}
+    return any(t[1][1] == REST and t[2][0] == "B" and t[2][1] in rests and t[2][1] not in firsts for t in graph)
+
+
+def unreachable_bnode_px(graph):
+    """as unreachable_bnode, but a blank node with a self-loop also counts as a starting point"""
+    loops = {t[0][1] for t in graph if t[0][0] == "B" and t[0] == t[2]}
+    inc = _incoming(graph)
+    subs = {(t[0][0], t[0][1]) for t in graph}
+    roots = [x for x in subs if x[0] == "I" or x[1] not in inc or x[1] in loops]
+    out = {}
+    for t in graph:
+        out.setdefault((t[0][0], t[0][1]), []).append((t[2][0], t[2][1]))
+    seen, todo = set(roots), list(roots)
+    while todo:
+        n = todo.pop()
+        for m in out.get(n, []):
+            if m not in seen:
+                seen.add(m)
+                todo.append(m)
+    return any(x not in seen for x in subs if x[0] == "B")
+
+
+def bad_rest_object(graph):
+    """an rdf:rest object that ends isValidList's walk without being rdf:nil: a literal that is false as a Python
+    value, or a node other than rdf:nil with exactly two outgoing triples that is not a list cell"""
+    outs = {}
+    for t in graph:
+        outs.setdefault((t[0][0], t[0][1]), []).append(t[1][1])
+    for t in graph:
+        if t[1][1] != REST:
+            continue
+        o = t[2]
+        if o[0] == "L":
+            if not bool(to_term(o)):
+                return True
+        elif o != ["I", NIL]:
+            ps = outs.get((o[0], o[1]), [])
+            if len(ps) == 2 and sorted(ps) != sorted([FIRST, REST]):
+                return True
+    return False
+
+
+def bnode_subject_referenced_twice(graph):
+    inc = _incoming(graph)
+    return any(t[0][0] == "B" and len(inc.get(t[0][1], [])) >= 2 for t in graph)
+
+
+def inner_list_cell(graph):
+    """a blank node with rdf:first that some rdf:rest points to"""
+    firsts = {t[0][1] for t in graph if t[0][0] == "B" and t[1][1] == FIRST}
+    return any(t[1][1] == REST and t[2][0] == "B" and t[2][1] in firsts for t in graph)
+
+
 def triggers(graph, fmt, base=None, bind=None):
     """Finding ids whose *input-side* trigger holds (see known_findings.d/C03.json).  Ordered."""
     out = []
@@ -567,10 +694,563 @@ def triggers(graph, fmt, base=None, bind=None):
             out.append("F15d")
         if rest_cycle(graph):
             out.append("F15e")
-        if shared_list_cell(graph):
+        if shared_list_cell(graph) or (inner_list_cell(graph) and
+                                       (bnode_subject_referenced_twice(graph) or unreachable_bnode(graph))):
             out.append("F15f")
-        if any(t[1][1] == REST and t[2][0] == "L" and not bool(to_term(t[2])) for t in graph):
+        if bad_rest_object(graph):
             out.append("F15h")
-    if fmt in TURTLE_FAMILY + XML_FAMILY and base is not None and bad_relative(graph, base):
+        if any(t[1][1].endswith(".") for t in graph):
+            out.append("F15o")
+    if fmt == "pretty-xml":
+        if type_object_unsafe(graph):
+            out.append("F15k")
+        if list_as_object(graph):
+            out.append("F15l")
+        if unreachable_bnode_px(graph) or bnode_subject_referenced_twice(graph):
+            out.append("F15m")
+    if fmt == "json-ld":
+        if unreachable_bnode(graph):
+            out.append("F15i")
+        if list_cell_shared_or_typed(graph):
+            out.append("F15j")
+        if rest_cell_without_first(graph):
+            out.append("F15n")
+    if fmt in TURTLE_FAMILY and base is not None and bad_relative(graph, base):
+        out.append("F15g")
+    if fmt in XML_FAMILY + ("json-ld",) and base is not None and bad_relative_any(graph, base):
         out.append("F15g")
     return out
+
+
+# ================================================================= suites
+import itertools  # noqa: E402
+import json  # noqa: E402
+
+from rdflib.plugins.parsers import notation3 as _n3  # noqa: E402
+from rdflib.plugins.parsers import ntriples as _nt  # noqa: E402
+from rdflib.plugins.serializers import nt as _ntser  # noqa: E402
+
+from .core import Suite, cN, cbool, clist, copt, cstr, ctuple  # noqa: E402
+
+
+def small_strings(maxlen):
+    for n in range(maxlen + 1):
+        for tup in itertools.product(ALPHABET, repeat=n):
+            yield "".join(tup)
+
+
+SMALL2 = list(small_strings(2))
+
+
+def rand_unicode(rng, n):
+    out = []
+    for _ in range(n):
+        r = rng.random()
+        if r < 0.5:
+            out.append(rng.choice(ALPHABET))
+        elif r < 0.8:
+            out.append(chr(rng.randrange(0x20, 0x7F)))
+        elif r < 0.9:
+            out.append(chr(rng.choice([0, 1, 8, 0x0B, 0x0C, 0x1F, 0x7F, 0x85, 0x2029, 0xFEFF, 0xFFFD, 0xFFFF, 0x10FFFF])))
+        else:
+            c = rng.randrange(0x80, 0x110000)
+            out.append(chr(c if not 0xD800 <= c <= 0xDFFF else 0xE000))
+    return "".join(out)
+
+
+# ---- Coq text of terms
+def c_node(n):
+    return f"(Iri {cstr(n[1])})" if n[0] == "I" else f"(Bnode {cstr(n[1])})"
+
+
+def c_obj(o):
+    if o[0] == "L":
+        return f"(OLit {cstr(o[1])} {copt(o[2], cstr)} {copt(o[3], cstr)})"
+    return f"(ONode {c_node(o)})"
+
+
+def c_triple(t):
+    return ctuple(c_node(t[0]), cstr(t[1][1]), c_obj(t[2]))
+
+
+def c_triples(ts):
+    return copt(ts, lambda l: clist(c_triple(t) for t in l))
+
+
+# ---------------------------------------------------------------- K1: N-Triples text
+NT_IRIS_OK = ["http://e/a", "http://e/b", "urn:x:y", "a:b", "http://e/\u00e9", "http://e/a:b?c#d", "x:", "http://e/\U0001F600",
+              "h:'", "http://e/a.b", "http://e/%20"]
+NT_IRIS_EDGE = ["http://e/a\u00a0b", "http://e/a\u2028b", "http://e/a\tb", "http://e/a\nb", "a\nb:c", "a\rb:c", "a\u00a0b:c",
+                "a\tb:c", "http://e/a\u0085b", "http://e/a\u3000", "abc", ":a", "", "http://e/a b", "http://e/a>b", "http://e/a\\b",
+                "http://e/a\\u0041", "http://e/{a}", "http://e/a\"b", "a b:c", "http://e/a\x0bb", "http://e/a\x1fb"]
+NT_LABELS = ["b1", "N0af3", "a.b", "a-b", "a:b", "_x", "a..b", "1", "a.", "-a", "a b", ".a", "", "a\u00e9", "a.-"]
+NT_LANGS = ["en", "en-US", "x-1", "a-b-c", "EN", "de-1996-x"]
+NT_DTS = ["http://e/dt", "urn:x:dt", "http://e/dt\u00a0x", "dt"]
+
+
+class NtText(Suite):
+    name = "nt_text"
+    imports = "From RV Require Import Codec.Model."
+    case_ty = "nt_case"
+    obs_ty = "nt_obs"
+    model = "nt_model"
+    oeq = "nt_obs_eqb"
+    spec = "nt_spec"
+    kf = "nt_kf"
+    kf_ids = {1: "F15b"}
+    corr = "serializers/nt.py:_nt_row,_quoteLiteral,_quote_encode; parsers/ntriples.py:W3CNTriplesParser.parsestring,unquote; compat.decodeUnicodeEscape"
+    quick_n = 1200
+    thorough_n = 12000
+    timeout_s = 5.0
+
+    # case = {"mode": "triple", "t": [s, p, o]} | {"mode": "unquote", "s": str} | {"mode": "doc", "s": str}
+    def gen_node(self, rng, edge):
+        r = rng.random()
+        if r < 0.65:
+            return ["I", rng.choice(NT_IRIS_EDGE if edge and rng.random() < 0.5 else NT_IRIS_OK)]
+        return ["B", rng.choice(NT_LABELS if edge else NT_LABELS[:8])]
+
+    def gen_lex(self, rng):
+        r = rng.random()
+        if r < 0.4:
+            return "".join(rng.choice(ALPHABET) for _ in range(rng.choice([0, 1, 2, 3, 4, 6])))
+        if r < 0.5:
+            return rng.choice(["x", "hello world", "\\u0041", "\\\\n", 'say "hi"', "a\\", "\\", '"', '\\"'])
+        return rand_unicode(rng, rng.choice([1, 2, 4, 8, 16]))
+
+    def gen_triple(self, rng):
+        edge = rng.random() < 0.3
+        s = self.gen_node(rng, edge)
+        p = ["I", rng.choice(NT_IRIS_EDGE if edge and rng.random() < 0.3 else NT_IRIS_OK)]
+        r = rng.random()
+        if r < 0.3:
+            o = self.gen_node(rng, edge)
+        else:
+            lex = self.gen_lex(rng)
+            k = rng.random()
+            if k < 0.4:
+                o = ["L", lex, None, None]
+            elif k < 0.7:
+                o = ["L", lex, rng.choice(NT_LANGS), None]
+            else:
+                o = ["L", lex, None, rng.choice(NT_DTS if edge else NT_DTS[:2])]
+        return [s, p, o]
+
+    def gen(self, rng, i):
+        if i < len(SMALL2):
+            return {"mode": "triple", "t": [["I", "http://e/a"], ["I", "http://e/p"], ["L", SMALL2[i], None, None]]}
+        if i < 2 * len(SMALL2):
+            return {"mode": "unquote", "s": SMALL2[i - len(SMALL2)]}
+        r = rng.random()
+        if r < 0.55:
+            return {"mode": "triple", "t": self.gen_triple(rng)}
+        if r < 0.75:
+            parts = []
+            for _ in range(rng.choice([1, 2, 3, 5])):
+                k = rng.random()
+                if k < 0.35:
+                    parts.append(rng.choice(["\\u00e9", "\\u0041", "\\U0001F600", "\\U00110000", "\\UFFFFFFFF", "\\uD800",
+                                             "\\u00E", "\\U0001F60", "\\uzzzz", "\\n", "\\t", "\\b", "\\f", "\\r", "\\'", '\\"',
+                                             "\\\\", "\\x", "\\a", "\\", "\\u", "\\U"]))
+                else:
+                    parts.append(rand_unicode(rng, rng.choice([1, 2, 3])))
+            return {"mode": "unquote", "s": "".join(parts)}
+        # documents: written rows, then damaged
+        rows = []
+        for _ in range(rng.choice([1, 1, 2, 3])):
+            try:
+                rows.append(_ntser._nt_row(tuple(to_term_nt(x) for x in self.gen_triple(rng))))
+            except Exception:  # noqa: BLE001
+                rows.append("<http://e/a> <http://e/p> \"x\" .\n")
+        doc = "".join(rows)
+        k = rng.random()
+        if k < 0.25:
+            pass
+        elif k < 0.4:
+            doc = rng.choice(["", "\n", "  \n", "# c\n", " # c", "\r\n", "\r", " \t ", "\u00a0", "\u00a0\n", ".\n"]) + doc + \
+                rng.choice(["", "# end", "   ", "\r", "\u2028", "<a:b> <a:b> <a:b> .", "<a:b> <a:b> <a:b>", "<a:b> <a:b> <a:b> . # c"])
+        else:
+            for _ in range(rng.choice([1, 1, 2, 3])):
+                pos = rng.randrange(len(doc) + 1)
+                ch = rng.choice([" ", "\t", ".", "#", '"', "\\", "<", ">", "@", "^", "_", ":", "-", "\r", "\n", "a", "1", "\u00a0", ""])
+                m = rng.random()
+                if m < 0.4:
+                    doc = doc[:pos] + ch + doc[pos:]
+                elif m < 0.7:
+                    doc = doc[:pos] + doc[pos + 1:]
+                else:
+                    doc = doc[:pos] + ch + doc[pos + 1:]
+        return {"mode": "doc", "s": doc}
+
+    # ---- implementation
+    @staticmethod
+    def parse(text):
+        out = []
+
+        class Sink:
+            def triple(self, s, p, o):
+                out.append((s, p, o))
+
+        parser = _nt.W3CNTriplesParser(Sink())
+        try:
+            parser.parsestring(text)
+        except CaseTimeout:
+            raise
+        except Exception:  # noqa: BLE001
+            return None
+        back = {str.__str__(v): k for k, v in parser._bnode_ids.items()}
+
+        def conv(x):
+            if isinstance(x, BNode):
+                return ["B", back.get(str.__str__(x), "?" + str.__str__(x))]
+            if isinstance(x, Literal):
+                return ["L", str.__str__(x), None if x.language is None else str.__str__(x.language),
+                        None if x.datatype is None else str.__str__(x.datatype)]
+            return ["I", str.__str__(x)]
+        return [[conv(s), conv(p), conv(o)] for s, p, o in out]
+
+    def run_impl(self, case):
+        if case["mode"] == "unquote":
+            try:
+                return {"u": _nt.unquote(case["s"])}
+            except CaseTimeout:
+                raise
+            except Exception:  # noqa: BLE001
+                return {"u": None}
+        if case["mode"] == "doc":
+            return {"d": self.parse(case["s"])}
+        try:
+            text = _ntser._nt_row(tuple(to_term_nt(x) for x in case["t"]))
+        except CaseTimeout:
+            raise
+        except Exception:  # noqa: BLE001
+            return {"text": None, "back": None}
+        return {"text": text, "back": self.parse(text)}
+
+    def coq_case(self, case):
+        if case["mode"] == "unquote":
+            return f"NtUnquote {cstr(case['s'])}"
+        if case["mode"] == "doc":
+            return f"NtDoc {cstr(case['s'])}"
+        return f"NtTriple {c_triple(case['t'])}"
+
+    def coq_obs(self, obs):
+        if "u" in obs:
+            return f"ObsUnquote {copt(obs['u'], cstr)}"
+        if "d" in obs:
+            return f"ObsDoc {c_triples(obs['d'])}"
+        return f"ObsTriple {copt(obs['text'], cstr)} {c_triples(obs['back'])}"
+
+    def nontrivial(self, case, obs):
+        if case["mode"] == "triple":
+            return obs.get("text") is not None
+        return True
+
+    def features(self, case, obs):
+        f = {"mode_" + case["mode"]: 1}
+        if case["mode"] == "triple":
+            f["written"] = int(obs.get("text") is not None)
+            f["read_back_one"] = int(bool(obs.get("back")) and len(obs["back"]) == 1)
+            if case["t"][2][0] == "L":
+                f["literal_object"] = 1
+                f["lex_has_escape_char"] = int(any(c in case["t"][2][1] for c in '\\"\n\r'))
+        elif case["mode"] == "doc":
+            f["doc_accepted"] = int(obs.get("d") is not None)
+        else:
+            f["unquote_raises"] = int(obs.get("u") is None)
+        return f
+
+    def shrink(self, case):
+        if case["mode"] == "triple":
+            s, p, o = case["t"]
+            if o[0] == "L":
+                for i in range(len(o[1])):
+                    yield {"mode": "triple", "t": [s, p, ["L", o[1][:i] + o[1][i + 1:], o[2], o[3]]]}
+                if o[2] or o[3]:
+                    yield {"mode": "triple", "t": [s, p, ["L", o[1], None, None]]}
+            if s != ["I", "http://e/a"]:
+                yield {"mode": "triple", "t": [["I", "http://e/a"], p, o]}
+            if p != ["I", "http://e/p"]:
+                yield {"mode": "triple", "t": [s, ["I", "http://e/p"], o]}
+        else:
+            s = case["s"]
+            for i in range(len(s)):
+                yield dict(case, s=s[:i] + s[i + 1:])
+
+    def sweep(self):
+        for s in small_strings(3):
+            yield {"mode": "triple", "t": [["I", "http://e/a"], ["I", "http://e/p"], ["L", s, None, None]]}
+            yield {"mode": "unquote", "s": s}
+        for u in NT_IRIS_OK + NT_IRIS_EDGE:
+            for o in (["I", u], ["L", "x", None, u], ["B", "b"]):
+                yield {"mode": "triple", "t": [["I", u], ["I", u], o]}
+        for lab in NT_LABELS:
+            yield {"mode": "triple", "t": [["B", lab], ["I", "http://e/p"], ["B", lab]]}
+
+
+def to_term_nt(x):
+    if x[0] == "I":
+        return URIRef(x[1])
+    if x[0] == "B":
+        return BNode(x[1])
+    return Literal(x[1], lang=x[2], datatype=None if x[3] is None else URIRef(x[3]), normalize=False)
+
+
+# ---------------------------------------------------------------- K2: Turtle string text
+class TtlString(Suite):
+    name = "ttl_string"
+    imports = "From RV Require Import Codec.Model."
+    case_ty = "ttl_case"
+    obs_ty = "ttl_obs"
+    model = "ttl_model"
+    oeq = "ttl_obs_eqb"
+    spec = "ttl_spec"
+    corr = "term.py:Literal._quote_encode; parsers/notation3.py:SinkParser.strconst,_unicodeEscape (directly and through Graph.parse)"
+    quick_n = 1000
+    thorough_n = 12000
+    timeout_s = 5.0
+
+    # case = {"mode": "string", "s": str} | {"mode": "raw", "triple": bool, "s": str}
+    def gen(self, rng, i):
+        if i < len(SMALL2):
+            return {"mode": "string", "s": SMALL2[i]}
+        if i < 2 * len(SMALL2):
+            return {"mode": "string", "s": "\n" + SMALL2[i - len(SMALL2)]}
+        r = rng.random()
+        if r < 0.5:
+            k = rng.random()
+            if k < 0.5:
+                s = "".join(rng.choice(ALPHABET + ['"', '"', "\\", "\n"]) for _ in range(rng.choice([1, 2, 3, 4, 5, 6, 8])))
+            elif k < 0.7:
+                s = rng.choice(["\n", "", "x\n"]) + rng.choice(['"', '""', '"""', '""""', '"""""', '""""""', '\\"', '\\""', '\\"""', 'a"', '"a',
+                                                                '\\', '\\\\', '"\\', '"\\"', '""\\"', "\r", "\r\n", '"\r', '\r"'])
+                if rng.random() < 0.5:
+                    s = s + rng.choice(["\n", "x", ""])
+            else:
+                s = rand_unicode(rng, rng.choice([1, 2, 4, 8, 16]))
+            return {"mode": "string", "s": s}
+        parts = []
+        for _ in range(rng.choice([1, 2, 3, 5, 7])):
+            k = rng.random()
+            if k < 0.3:
+                parts.append(rng.choice(['"', '""', '"""', '""""', '"""""', '""""""', "'", "'''"]))
+            elif k < 0.55:
+                parts.append(rng.choice(["\\u00e9", "\\u0041", "\\U0001F600", "\\U00110000", "\\UFFFFFFFF", "\\uD800", "\\u00E",
+                                         "\\U0001F60", "\\uzzzz", "\\Uzzzzzzzz", "\\n", "\\t", "\\b", "\\f", "\\r", "\\'", '\\"', "\\\\",
+                                         "\\x", "\\a", "\\v", "\\", "\\u", "\\U", "\\e", "\\0"]))
+            elif k < 0.65:
+                parts.append(rng.choice(["\n", "\r", "\r\n"]))
+            else:
+                parts.append(rand_unicode(rng, rng.choice([1, 2, 3])))
+        s = "".join(parts)
+        if rng.random() < 0.5:
+            s += rng.choice(['"', '"""', '" .', '""" .', '"""" .'])
+        return {"mode": "raw", "triple": rng.random() < 0.6, "s": s}
+
+    _parser = None
+
+    def run_impl(self, case):
+        if case["mode"] == "raw":
+            if TtlString._parser is None:
+                TtlString._parser = _n3.SinkParser(_n3.RDFSink(Graph()), baseURI="http://e/", turtle=True)
+            p = TtlString._parser
+            try:
+                j, v = p.strconst(case["s"], 0, '"""' if case["triple"] else '"')
+                return {"raw": [v, case["s"][j:]]}
+            except CaseTimeout:
+                raise
+            except BaseException:  # noqa: BLE001  (AssertionError, IndexError, BadSyntax)
+                return {"raw": None}
+        text = Literal(case["s"])._quote_encode()
+        try:
+            g = Graph()
+            g.parse(data="<http://e/s> <http://e/p> " + text + " .", format="turtle")
+            (o,) = [o for _, _, o in g]
+            back = str.__str__(o) if isinstance(o, Literal) and o.datatype is None and o.language is None else None
+        except CaseTimeout:
+            raise
+        except Exception:  # noqa: BLE001
+            back = None
+        # the same text as Literal.n3() and the Turtle serialiser print it
+        assert Literal(case["s"]).n3() == text
+        return {"text": text, "back": back}
+
+    def coq_case(self, case):
+        if case["mode"] == "raw":
+            return f"TtlRaw {cbool(case['triple'])} {cstr(case['s'])}"
+        return f"TtlString {cstr(case['s'])}"
+
+    def coq_obs(self, obs):
+        if "raw" in obs:
+            return "ObsRaw " + copt(obs["raw"], lambda p: ctuple(cstr(p[0]), cstr(p[1])))
+        return f"ObsString {cstr(obs['text'])} {copt(obs['back'], cstr)}"
+
+    def features(self, case, obs):
+        f = {"mode_" + case["mode"]: 1}
+        if case["mode"] == "string":
+            f["triple_quoted_branch"] = int("\n" in case["s"])
+            f["has_quote"] = int('"' in case["s"])
+            f["ends_with_quote"] = int(case["s"].endswith('"'))
+        else:
+            f["raw_accepted"] = int(obs.get("raw") is not None)
+        return f
+
+    def shrink(self, case):
+        s = case["s"]
+        for i in range(len(s)):
+            yield dict(case, s=s[:i] + s[i + 1:])
+
+    def sweep(self):
+        for s in small_strings(3):
+            yield {"mode": "string", "s": s}
+            yield {"mode": "string", "s": "\n" + s}
+            yield {"mode": "raw", "triple": False, "s": s + '"'}
+            yield {"mode": "raw", "triple": True, "s": s + '"""'}
+
+
+# ---------------------------------------------------------------- graph level: conformance only
+TRIGGER_NUM = {"F15": 1, "F15b": 2, "F15c": 3, "F15d": 4, "F15e": 5, "F15f": 6, "F15g": 7, "F15h": 8,
+               "F15i": 9, "F15j": 10, "F15k": 11, "F15l": 12, "F15m": 13, "F15n": 14, "F15o": 15}
+BINDS = [None, None, [["ex", "http://e/"], ["ns", "http://e/ns#"]], [["", "http://e/"]], [["ex", "http://e/ns#"]]]
+BASES = [None, None, None, "http://e/", "http://e/", "http://other.org/"]
+
+
+class RoundTrip(Suite):
+    """serialise -> parse -> compare up to blank-node renaming, all eight serialisers.  There is NO Coq model of
+    the serialisers behind this suite: the Coq side only records 'round trip fine' and the number of the known
+    finding whose input-side trigger holds (harness: triggers()).  Conformance testing."""
+    name = "roundtrip"
+    imports = "From RV Require Import Codec.Model."
+    case_ty = "rt_case"
+    obs_ty = "N"
+    model = "rt_model"
+    oeq = "rt_obs_eqb"
+    spec = "rt_spec"
+    kf = "rt_kf"
+    kf_ids = {v: k for k, v in TRIGGER_NUM.items()}
+    corr = "Graph.serialize / Graph.parse for nt, turtle, longturtle, n3, xml, pretty-xml, json-ld, hext (conformance, no model)"
+    quick_n = 1600
+    thorough_n = 16000
+    timeout_s = 2.0
+
+    def gen(self, rng, i):
+        graph, tags = gen_graph(rng)
+        return {"fmt": FORMATS[i % len(FORMATS)], "graph": graph, "base": rng.choice(BASES), "bind": rng.choice(BINDS),
+                "tags": tags}
+
+    def run_impl(self, case):
+        if case["fmt"] in XML_FAMILY and xml_inexpressible(case["graph"]):
+            return 1   # RDF/XML cannot express a predicate that is no XML name: outside the property
+        v, _ = roundtrip(case["graph"], case["fmt"], case["base"], case["bind"])
+        return 1 if v == "ok" else 0
+
+    def on_timeout(self, case):
+        return 0
+
+    def coq_case(self, case):
+        tr = triggers(case["graph"], case["fmt"], case["base"], case["bind"])
+        return cN(TRIGGER_NUM[tr[0]] if tr else 0)
+
+    def coq_obs(self, obs):
+        return cN(obs)
+
+    def nontrivial(self, case, obs):
+        return len(case["graph"]) >= 2
+
+    def features(self, case, obs):
+        f = {"fmt_" + case["fmt"]: 1, "triples": len(case["graph"]), "ok": int(obs == 1),
+             "base_given": int(case["base"] is not None), "prefixes_bound": int(case["bind"] is not None)}
+        tr = triggers(case["graph"], case["fmt"], case["base"], case["bind"])
+        f["trigger_free"] = int(not tr)
+        for t in tr[:1]:
+            f["trigger_" + t] = 1
+        for t in set(case.get("tags", [])):
+            f["shape_" + t] = 1
+        return f
+
+    def shrink(self, case):
+        g = case["graph"]
+        for i in range(len(g)):
+            if len(g) > 1:
+                yield dict(case, graph=g[:i] + g[i + 1:])
+        if case["base"] is not None:
+            yield dict(case, base=None)
+        if case["bind"] is not None:
+            yield dict(case, bind=None)
+        for i, t in enumerate(g):
+            for j, x in enumerate(t):
+                if x[0] == "L" and len(x[1]) > 1:
+                    for k in range(len(x[1])):
+                        t2 = list(t)
+                        t2[j] = ["L", x[1][:k] + x[1][k + 1:], x[2], x[3]]
+                        yield dict(case, graph=g[:i] + [t2] + g[i + 1:])
+
+    def sweep(self):
+        """every format x every single-triple graph over a literal pool that covers the alphabet, and the fixed
+        structural shapes"""
+        s, p = I("http://e/a"), I("http://e/p")
+        lits = [L(x) for x in small_strings(2)] + [L(x, lang="en") for x in small_strings(1)]
+        for dt, pool in sorted(TYPED.items()):
+            for lex in (pool or ["x", "", "a\nb", '"'] ):
+                lits.append(L(lex, dt=dt))
+        shapes = [[[s, p, o]] for o in lits]
+        b1, b2, b3 = Bn("b1"), Bn("b2"), Bn("b3")
+        shapes += [
+            [[s, p, b1], [b1, p, b2], [b2, p, L("x")]],
+            [[b1, p, b2], [b2, p, b1]],
+            [[b1, p, b1]],
+            [[s, p, b1], [I("http://e/b"), p, b1], [b1, p, L("x")]],
+            [[s, p, b1], [b1, I(FIRST), L("x")], [b1, I(REST), b2], [b2, I(FIRST), I("http://e/b")], [b2, I(REST), I(NIL)]],
+            [[s, p, I(NIL)]],
+            [[b1, I(FIRST), s], [b1, I(REST), I(NIL)]],
+            [[b1, I(FIRST), s], [b1, I(REST), b2], [b2, I(FIRST), s], [b2, I(REST), b1]],
+            [[b1, I(FIRST), s], [b1, I(REST), b1]],
+            [[s, p, b1], [b1, I(FIRST), s], [b1, I(REST), b2], [b2, I(FIRST), s], [b2, I(REST), b1]],
+            [[s, p, b1], [b1, I(FIRST), s]],
+            [[s, p, b1], [b1, I(REST), I(NIL)]],
+            [[s, p, b1], [b1, I(FIRST), s], [b1, I(REST), b3], [b2, I(FIRST), s], [b2, I(REST), b3], [s, p, b2],
+             [b3, I(FIRST), s], [b3, I(REST), I(NIL)]],
+            [[b1, p, L("x")]],
+            [[s, I(TYPE), b1]],
+            [[s, I(TYPE), L("x")]],
+        ]
+        for u in EXOTIC_IRIS:
+            shapes.append([[I(u), p, I(u)]])
+        for q, _ in EXOTIC_PREDS:
+            shapes.append([[s, I(q), s]])
+        for fmt in FORMATS:
+            for g in shapes:
+                for base, bind in ((None, None), ("http://e/", [["ex", "http://e/"]])):
+                    yield {"fmt": fmt, "graph": g, "base": base, "bind": bind, "tags": ["sweep"]}
+
+
+SUITES = [NtText(), TtlString(), RoundTrip()]
+
+TRUSTED = [
+    "Coq 8.16.1 kernel and standard library; coqc -Q coq RV",
+    "harness/c03.py drivers and the reading of Python objects into code-point lists (str.__str__, never __eq__/__hash__)",
+    "K1/K2 models coq/Codec/Model.v are tied to rdflib only by the differential suites nt_text and ttl_string "
+    "(all strings of length <= 2 (quick) / <= 3 (thorough) over the alphabet \\ \" ' LF CR TAB u U 0 a e-acute U+1F600 U+00A0 "
+    "U+2028, random strings, damaged documents) and by the reflected tables coq/Gen/Tables_codec.v",
+    "Literal.__new__ / URIRef / BNode constructors are outside the text-level model: the reader model ends at the constructor "
+    "arguments (covered by C07/C09); generated datatypes in nt_text are ones rdflib does not normalise",
+    "suite roundtrip is CONFORMANCE ONLY: no Coq model of the eight serialisers / six parsers; its verdict is computed by the "
+    "Python isomorphism oracle harness/c03.py:isomorphic (backtracking bijection search) and Python trigger predicates "
+    "harness/c03.py:triggers; the Coq side (rt_model/rt_spec) only compares two numbers",
+    "the N-Triples reader's 2048-character read buffer and codecs.StreamReader are not modelled (lines are split on the whole text)",
+]
+ASSUMPTIONS = [
+    "strings are Python str values: every code point < 0x110000 (pystr_triple); lone surrogates are not generated (UTF-8 output)",
+    "IRIs in wf_triple have a scheme (a ':' not in first position) and pass rdflib's own _is_valid_uri; blank-node labels have "
+    "the shape of the reader's r_nodeid; language tags match the language-tag pattern on the whole string",
+    "round trips with a base pass the same base to the parser (publicID), as a user reading back his own file would",
+    "a predicate that cannot be written as an XML QName makes a graph inexpressible in RDF/XML (skipped for xml, pretty-xml)",
+    "known-finding triggers (F15..F15m) are input-side predicates that over-approximate where each defect can manifest; inside a "
+    "trigger region the round-trip verdict is not predicted, so further defects there are not looked for",
+]
+RULE = ("nt_text / ttl_string: all strings of length <= 2 over the 14-character alphabet first, then random triples, escape "
+        "sequences and damaged documents; distinct by full case content. roundtrip: random graphs built from shapes (flat, tree, "
+        "dag, blank-node cycle with/without IRI entry, self-loop, orphan, well-formed / nested / subject lists, 14 kinds of "
+        "malformed lists) over a small IRI vocabulary plus up to 3 exotic IRIs, literals over the same alphabet, 22 datatypes with "
+        "canonical and non-canonical lexical forms, language tags; one of 8 formats x base x prefix bindings per case; "
+        "non-trivial = at least 2 triples")
